@@ -114,7 +114,7 @@ def session_case(draw):
         else:
             f = draw(G.table_set_file(2, 6, max_lines=5, max_daughters=4))
             items.append({"kind": "file", "ast": f, "pick": draw(st.integers(0, 9))})
-    return {"items": items}
+    return {"items": items, "share": draw(st.sampled_from((False, False, True)))}
 
 
 def check_case(case, rec):
@@ -135,6 +135,17 @@ def check_case(case, rec):
             p = make_parser(G.render(f), ID)
             with impl(ID, "build_decay_chains"):
                 chains.append(p.build_decay_chains(m))
+    if case.get("share"):
+        # a hand-built chain dictionary may refer to one sub-chain object from several slots
+        def share(node, memo):
+            (k, modes), = node.items()
+            for mode in modes:
+                for i, p_ in enumerate(mode["fs"]):
+                    if isinstance(p_, dict):
+                        share(p_, memo)
+                        mode["fs"][i] = memo.setdefault(repr(p_), p_)
+            return node
+        chains = [share(ch, {}) for ch in chains]
     sources = []
     for ch in chains:
         with impl(ID, "DecayChainViewer"):
@@ -174,6 +185,8 @@ def check_case(case, rec):
         dup = sorted({i for i in all_ids if all_ids.count(i) > 1})
         raise Mismatch("C15:ids-not-unique-across-graphs", f"node identifiers reused in one session: {dup[:5]}")
     classes.add(f"session-{len(chains)}-graphs")
+    if case.get("share"):
+        classes.add("equal-sub-chains-shared-by-reference")
     rec.case(case, nt, sorted(classes), sample=lambda: {"chain": chains[0] if chains else None, "dot_source": sources[0][:1200] if sources else None})
 
 
